@@ -40,8 +40,10 @@ from fractions import Fraction
 from .. import sx
 from ..impl import run_impl
 from ..model import run_model
+from . import _c07_gen
 
 ASSUMPTIONS = [
+    _c07_gen.ASSUMPTION,
     'boxes over exact rationals (Qc); all generated domains/points are dyadic, so the float midpoints of the code are exact',
     'automatic_extend_split: the extend/split decision bit of every refined area is an INPUT of the model step, read off '
     'the implementation trace (it is decided by float error estimates of the real integrand); likewise the list of split '
@@ -1140,7 +1142,9 @@ def check_sweeps(chk, sweeps):
 
 
 def run(chk):
-    chk.coq_obligations()
+    gen_info = _c07_gen.regenerate(chk)
+    chk.coq_obligations(extra_props=_c07_gen.EXTRA_PROPS)
+    gen_problem = _c07_gen.diagnose(chk, gen_info)
     n = chk.n(250, 4000)
     cases = CORPUS + [gen_case(chk.rng, chk.tier, i) for i in range(n)]
     keys, samples = check_cases(chk, cases)
@@ -1158,6 +1162,7 @@ def run(chk):
                      '0..4 (d=4), 0..3 (d=5), every coarsening value 0..lmax-lmin, two passes per area; one strategy object per '
                      '(d, version, half of the start levels) re-initialised for every start level; non-trivial = coarsening >= 1 '
                      'and lmax-lmin >= 2', [dict(sweep=s_) for s_ in sweeps[:1]])
+    _c07_gen.finish(chk, gen_info, gen_problem)
 
 
 def replay(chk, rep):
